@@ -75,6 +75,7 @@ func init() {
 				vz = []int64{0, 1, 2, 7, 16, 24, 25, 26, 34, 35}
 			}
 			return []engine.Phase{
+				respellNotationPhase("C11", tier),
 				{Name: "all-tiles", ShardDepth: 2, Bounds: engine.Bounds{InputDev: -1},
 					Rule: "every tile (x,y) of zooms 1..maxAll: quadkey = bit interleave, 0 <= key < 4^z, inverse conversion returns (x,y); non-trivial = distinct tiles whose quadkey has a leading zero digit (x,y < 2^(z-1))",
 					Body: func(c *engine.Ctx) {
@@ -108,7 +109,7 @@ func init() {
 						}
 					}},
 				{Name: "index-classes", ShardDepth: 2, Bounds: engine.Bounds{InputDev: -1},
-					Rule: "full product z in zooms 7..31 x (x,y) in HIdx(z)^2 (alternating bit patterns, leading-zero keys) x v x f in VIdxSmall(v): quadkey = interleave, round trip at the same zooms is the identity, every group echoes zooms and height parameters; non-trivial = distinct IDs",
+					Rule: "full product z in zooms 7..31 x (x,y) in HIdx(z)^2 (alternating bit patterns, leading-zero keys) x v x f in VIdxSmall(v) x equal heights in {0, 100, -3.5} (index form): quadkey = interleave, round trip at the same zooms is the identity, every group echoes zooms and height parameters; non-trivial = distinct IDs",
 					Body: func(c *engine.Ctx) {
 						z := hz[c.In("z", len(hz))]
 						hx := alpha.HIdx(z)
@@ -118,8 +119,10 @@ func init() {
 						fs := alpha.VIdxSmall(v)
 						f := fs[c.In("f", len(fs))]
 						in := ref.Vox{H: z, X: x, Y: y, V: v, F: f}
-						gs, err := transform.ConvertExtendedSpatialIDsToQuadkeysAndVerticalIDs([]string{in.Ext()}, z, v, 0, 0)
-						d := map[string]any{"id": in.Ext()}
+						// index form = equal heights; the request's value must come back unchanged, whatever it is
+						eqH := []float64{0, 100, -3.5}[c.In("equalHeights", 3)]
+						gs, err := transform.ConvertExtendedSpatialIDsToQuadkeysAndVerticalIDs([]string{in.Ext()}, z, v, eqH, eqH)
+						d := map[string]any{"id": in.Ext(), "max_height=min_height": eqH}
 						if err != nil || len(gs) != 1 || len(gs[0].InnerIDList()) != 1 {
 							c.Violation("C11:ConvertExtendedSpatialIDsToQuadkeysAndVerticalIDs:unexpected-shape", d)
 							return
@@ -133,11 +136,12 @@ func init() {
 							d["got"] = p
 							c.Violation("C11:quadkey:not-the-bit-interleave", d)
 						}
-						if g.QuadkeyZoom() != z || g.VerticalZoom() != v || g.MaxHeight() != 0 || g.MinHeight() != 0 {
+						if g.QuadkeyZoom() != z || g.VerticalZoom() != v || g.MaxHeight() != eqH || g.MinHeight() != eqH {
+							d["group_reports"] = fmt.Sprint(g.QuadkeyZoom(), g.VerticalZoom(), g.MaxHeight(), g.MinHeight())
 							c.Violation("C11:group:does-not-echo-request-parameters", d)
 						}
 						ids, err := transform.ConvertQuadkeysAndVerticalIDsToExtendedSpatialIDs(
-							[]*object.QuadkeyAndVerticalID{object.NewQuadkeyAndVerticalID(z, p[0], v, p[1], 0, 0)}, z, v)
+							[]*object.QuadkeyAndVerticalID{object.NewQuadkeyAndVerticalID(z, p[0], v, p[1], eqH, eqH)}, z, v)
 						if err != nil || len(ids) != 1 || ids[0] != in.Ext() {
 							d["got_ids"] = ids
 							c.Violation("C11:roundtrip:not-identity", d)
@@ -150,7 +154,10 @@ func init() {
 								d["got_spatial"] = sp
 								c.Violation("C11:ConvertQuadkeysAndVerticalIDsToSpatialIDs:differs", d)
 							}
-							gs2, err := transform.ConvertSpatialIDsToQuadkeysAndVerticalIDs([]string{in.Spatial()}, z, v, 0, 0)
+							gs2, err := transform.ConvertSpatialIDsToQuadkeysAndVerticalIDs([]string{in.Spatial()}, z, v, eqH, eqH)
+							if err == nil && len(gs2) == 1 && (gs2[0].MaxHeight() != eqH || gs2[0].MinHeight() != eqH) {
+								c.Violation("C11:group:does-not-echo-request-parameters[spatial-form]", d)
+							}
 							if err != nil || len(pairsOf(gs2)) != 1 || pairsOf(gs2)[0] != (qv{p[0], p[1]}) {
 								c.Violation("C11:ConvertSpatialIDsToQuadkeysAndVerticalIDs:differs-from-extended-form", d)
 							}
@@ -268,7 +275,11 @@ func init() {
 							c.Count("inverse_skipped_over_budget")
 							return
 						}
+						backBefore := snapObjects(back)
 						ids2, err := transform.ConvertQuadkeysAndVerticalIDsToExtendedSpatialIDs(back, w.root.H, w.root.V)
+						if snapObjects(back) != backBefore {
+							c.Violation("C11:ConvertQuadkeysAndVerticalIDsToExtendedSpatialIDs:modifies-the-callers-request-objects", d)
+						}
 						if err != nil {
 							c.Violation("C11:ConvertQuadkeysAndVerticalIDsToExtendedSpatialIDs:error-on-valid-input", d)
 							return
